@@ -1012,6 +1012,22 @@ macro_rules! def_tok {
             }
         }
         fn register_all(bi: &mut BirthInitializer, toks: &mut BTreeMap<String, Tok>) {
+            // a birth metric with everything a birth can carry beyond a value: metadata, properties
+            // (a nested set among them), a custom timestamp; a second one without a value
+            {
+                let d = BirthMetricDetails::new_with_initial_value("bm", -5i32)
+                    .use_alias(true)
+                    .with_timestamp(77)
+                    .with_metadata(birth_meta())
+                    .with_properties(birth_props());
+                let _ = bi.register_metric(d).expect("birth metric with metadata registers");
+                let d = BirthMetricDetails::<u16>::new_without_initial_value("bn", DataType::UInt16)
+                    .expect("datatype matches")
+                    .use_alias(false)
+                    .with_timestamp(0)
+                    .with_metadata(birth_meta());
+                let _ = bi.register_metric(d).expect("birth metric without value registers");
+            }
             $(
                 for alias in [false, true] {
                     let name = format!("{}_{}", $n, if alias { "a" } else { "n" });
@@ -1026,6 +1042,72 @@ macro_rules! def_tok {
     };
 }
 tok_types!(def_tok);
+
+fn birth_meta() -> MetaData {
+    MetaData {
+        description: Some("déscription".into()),
+        content_type: Some("text/plain".into()),
+        size: Some(u64::MAX),
+        md5: Some("d41d8cd98f00b204e9800998ecf8427e".into()),
+        file_name: Some("f.bin".into()),
+        file_type: None,
+    }
+}
+fn birth_props() -> PropertySet {
+    let mut inner = PropertySet::new_with_quality(Quality::Stale);
+    inner.insert("depth", Some(2u8)).unwrap();
+    let mut ps = PropertySet::new_with_quality(Quality::Bad);
+    ps.insert("unit", Some("°C".to_string())).unwrap();
+    ps.insert::<_, f64>("none", None).unwrap();
+    ps.insert("inner", Some(inner)).unwrap();
+    ps
+}
+/// C12 for BIRTH metrics (`BirthMetricDetails::with_metadata / with_properties / with_timestamp`): what the
+/// host's store is told in `update_from_birth` for the metrics `bm` and `bn` of a node / device birth
+fn check_birth_metrics(rec: &[RecCall]) -> Vec<String> {
+    let mut fails = vec![];
+    let want_meta = pmeta_from_srad(&birth_meta().into());
+    let want_props = {
+        let pp: payload::PropertySet = birth_props().into();
+        show_pset(&pset_from_srad(&pp), true)
+    };
+    let births: Vec<&Vec<He>> = rec.iter().filter_map(|r| if let RecKind::Birth(v) = &r.kind { Some(v) } else { None }).collect();
+    if births.len() != 2 {
+        fails.push(format!("expected the node's and the device's birth at the store, got {} birth(s)", births.len()));
+    }
+    for b in births {
+        match b.iter().find(|h| h.birth.as_ref().map(|x| x.0.as_str()) == Some("bm")) {
+            None => fails.push("birth metric `bm` did not reach the store".into()),
+            Some(h) => {
+                if h.val != Some(Val::I((-5i32) as u32)) || h.ts != 77 || h.hi || h.tr {
+                    fails.push(format!("bm: value/timestamp/flags {:?} {} {} {}", h.val, h.ts, h.hi, h.tr));
+                }
+                if h.birth.as_ref().map(|x| (x.1.is_some(), x.2)) != Some((true, DataType::Int32 as u32)) {
+                    fails.push(format!("bm: birth details {:?}", h.birth));
+                }
+                if h.meta.as_ref() != Some(&want_meta) {
+                    fails.push(format!("bm: metadata {:?}, published {:?}", h.meta, want_meta));
+                }
+                match &h.props {
+                    Some(p) if show_pset(p, true) == want_props => {}
+                    other => fails.push(format!("bm: properties {:?}, published {}", other.as_ref().map(|p| show_pset(p, true)), want_props)),
+                }
+            }
+        }
+        match b.iter().find(|h| h.birth.as_ref().map(|x| x.0.as_str()) == Some("bn")) {
+            None => fails.push("birth metric `bn` did not reach the store".into()),
+            Some(h) => {
+                if h.val.is_some() || h.ts != 0 || h.meta.as_ref() != Some(&want_meta) || h.props.is_some() {
+                    fails.push(format!("bn: {:?} ts={} meta={:?} props={:?}", h.val, h.ts, h.meta, h.props.is_some()));
+                }
+                if h.birth.as_ref().map(|x| (x.1.is_some(), x.2)) != Some((false, DataType::UInt16 as u32)) {
+                    fails.push(format!("bn: birth details {:?}", h.birth));
+                }
+            }
+        }
+    }
+    fails
+}
 
 type TokTable = Arc<Mutex<BTreeMap<String, Tok>>>;
 
@@ -1134,6 +1216,8 @@ struct Inner {
     /// last sequence number the edge node used (None = unknown, resynchronise)
     edge_seq: u64,
     synced: bool,
+    /// what `check_birth_metrics` found at the first births (reported by the first op of the world)
+    birth_fails: Option<Vec<String>>,
 }
 
 pub struct World {
@@ -1347,6 +1431,7 @@ impl World {
                 host_counter: 0,
                 edge_seq: 0,
                 synced: false,
+                birth_fails: None,
             };
             // first births
             let msgs = inner.drain_edge();
@@ -1355,7 +1440,8 @@ impl World {
                 Inner::deliver(&inner.app_broker, topic, &bytes);
             }
             barrier().await;
-            inner.take_rec();
+            let first = inner.take_rec();
+            inner.birth_fails = Some(check_birth_metrics(&first));
             inner.edge_seq = msgs.iter().filter_map(|(_, p)| p.seq).max().unwrap_or(0);
             inner.synced = msgs.len() == 2;
             inner
@@ -1755,6 +1841,12 @@ fn ensure_seq(w: &mut World, prevseq: u64) {
 }
 
 fn exec_in(w: &mut World, op: &str, out: &mut Out) -> String {
+    if let Some(fails) = w.inner.birth_fails.take() {
+        for f in fails {
+            out.fail("C12:birth-metric-delivered", "metadata-properties-timestamp", f);
+        }
+        out.count("world:birth-metrics-checked");
+    }
     let t: Vec<&str> = op.split(' ').collect();
     match t.as_slice() {
         ["metric", "new"] => "ok".into(),
